@@ -340,6 +340,7 @@ def toplevel_ops(rec, obj, P):
         # ordered pairs with the failing one second (partial commits become visible)
         for (n1, K1, _), (n2, K2, _) in itertools.permutations(tab, 2):
             ops.append(_call("update", "update:pair", **{n1: K1["conf"][-1], n2: K2["conf"][-1]}, **f))
+            ops.append(_call("transform", "transform:pair", **{n1: FN("inc"), n2: FN("same")}, **f))
             if P.get("invalid", True) and K2["bad"]:
                 ops.append(_call("update", "update:pair_second_bad", **{n1: K1["conf"][-1], n2: K2["bad"][0]}, **f))
                 ops.append(_call("transform", "transform:pair_second_bad", **{n1: FN("inc"), n2: FN("bad")}, **f))
